@@ -112,7 +112,8 @@ def run(case, ctx):
     devices = [jax.devices()[0]] * ndev
     use_default_devices = ndev == 1 and bool(rng.integers(0, 2))
     key_kind = ["none", "random", "random"][int(rng.integers(3))]
-    rkey = None if key_kind == "none" else jax.random.PRNGKey(int(rng.integers(0, 2**31 - 1)))
+    kseed = int(rng.integers(0, 2**31 - 1))
+    rkey = None if key_kind == "none" else (jax.random.PRNGKey(kseed) if kseed % 2 else jax.random.key(kseed))  # legacy uint32 key / new-style typed key
     D = int(rng.choice([1, 2, 3]))
     n_mi = int(rng.integers(1, 4))
     mis, layouts = [], []
